@@ -37,7 +37,7 @@ end Skel
 
 namespace Guard
 def CleanupStale : List String := ["range r.connMap", "if conn.IsStale(timeout)", "if len(staleInfos) == 0", "range staleInfos", "if closeFn != nil", "if err := closeFn(info.connID, info.clientID, info.authenticated); err != nil", "if info.stream != nil"]
-def CloseConnection : List String := ["if exists", "if conn != nil", "if conn.Stream != nil", "if conn.RawConn != nil", "if s.connStateStore != nil", "if err := s.connStateStore.UnregisterConnection(s.Ctx(), connectionId); err != nil"]
+def CloseConnection : List String := ["if exists", "if conn != nil", "if conn.Stream != nil", "if conn.RawConn != nil", "if s.streamMgr != nil", "if s.connStateStore != nil", "if err := s.connStateStore.UnregisterConnection(s.Ctx(), connectionId); err != nil"]
 def DropStaleIndex : List String := ["if conn == nil", "range r.clientIDMap", "if indexed == conn && clientID != conn.ClientID"]
 def KickOldConnection : List String := ["if oldConn != nil && oldConn.ConnID != newConnID", "if connInfo != nil", "if sendKickFn != nil && oldConnForCallback != nil", "if connInfo.stream != nil"]
 def Register : List String := ["if conn == nil", "if conn.ConnID == \"\"", "if r.maxConnections > 0 && len(r.connMap) >= r.maxConnections", "if oldestConn != nil", "if existing, exists := r.connMap[conn.ConnID]; exists", "if conn.Authenticated && conn.ClientID > 0"]
